@@ -565,6 +565,16 @@ func TestPropProxy(t *testing.T) {
 			AcceptEnc: rapid.IntRange(0, 4).Draw(t, "ae") > 0,
 			Chunked:   rapid.IntRange(0, 3).Draw(t, "chunked") == 0,
 		}
+		// sizes just past the round limits a buffering intermediary might impose
+		if parts := strings.SplitN(c.Doc, "<!--REP-->", 3); len(parts) == 3 && len(parts[1]) > 0 && rapid.IntRange(0, 39).Draw(t, "big") == 0 {
+			limits := []int{1 << 20, 2 << 20, 4 << 20}
+			if ev.Pick(0, 1) == 1 {
+				limits = append(limits, 8<<20, 10<<20, 16<<20)
+			}
+			target := rapid.SampledFrom(limits).Draw(t, "limit") + rapid.SampledFrom([]int{1, 4096, 300000}).Draw(t, "over")
+			c.Repeat = target/len(parts[1]) + 1
+			rec.Class("document just over 1 / 2 / 4 ... MiB")
+		}
 		rec.Eval(1)
 		rec.Class(c.class())
 		size := len(c.doc())
